@@ -12,6 +12,7 @@ from .. import codegen
 from ..codegen import TemplateEval, Sym, Elem
 from ..cfg import CFG
 from ..layers import layers_of_var, layers_of_expr, index_of
+from ..astutil import argn, assigned_value
 from .common import (cfg_of, fkey, conds, has_cond, cond_texts, stmts_of, walk_body, call_tail, call_name,
                      returns_of, raises_of, raise_type, stmt_of, kwarg)
 
@@ -71,7 +72,12 @@ def _sig_model(uni, fvar_tags=('func',)):
 
 
 def _membership_pred(it, key):
-    """``D.__contains__`` / ``lambda a: a in D`` -> mask of D."""
+    """``D.__contains__`` / ``lambda a: a in D`` (or a local naming one of these) -> mask of D."""
+    if isinstance(key, ast.Name):
+        v = it.env.get(key.id)
+        if isinstance(v, Opaque) and isinstance(v.expr, (ast.Attribute, ast.Lambda)):
+            return _membership_pred(it, v.expr)
+        return None
     if isinstance(key, ast.Attribute) and key.attr == '__contains__':
         return it.as_set(it.eval(key.value), key.value)
     if isinstance(key, ast.Lambda) and isinstance(key.body, ast.Compare) and len(key.body.ops) == 1 \
@@ -161,20 +167,61 @@ def check_make_chain(rep, rule, rule_align):
     uni = Universe(['REQ', 'OPT', 'PRE'])
     captured = {}
 
-    def model(it, e):
+    it = SetInterp(uni, env={ps[3]: uni['PRE']})
+    for p in (ps[0], ps[1], ps[2], ps[4]):
+        it.env[p] = Opaque(None, p)
+    # list-valued locals as concatenation normal forms: items ('*', param) = all elements of a parameter list in order,
+    # ('e', node) = one element, ('?', text) = unknown
+    seqenv = {}
+
+    def seq(e):
+        if isinstance(e, ast.BinOp) and isinstance(e.op, ast.Add):
+            return seq(e.left) + seq(e.right)
+        if isinstance(e, (ast.List, ast.Tuple)):
+            out = []
+            for x in e.elts:
+                out.extend(seq(x.value) if isinstance(x, ast.Starred) else [('e', x)])
+            return out
+        if isinstance(e, ast.Call) and call_name(e) in ('list', 'tuple') and len(e.args) == 1 and not e.keywords:
+            return seq(e.args[0])
+        if isinstance(e, ast.Name):
+            if e.id in seqenv:
+                return list(seqenv[e.id])
+            if e.id in (ps[0], ps[1]):
+                return [('*', e.id)]
+        return [('?', norm(e))]
+
+    def model(it, e):     # captures the list arguments where the call stands
         if isinstance(e, ast.Call) and call_name(e) == 'chain_argspec':
             captured['argspec'] = e
+            if len(e.args) >= 3:
+                captured['argspec_seqs'] = (seq(e.args[0]), seq(e.args[1]))
             return (uni['REQ'], uni['OPT'])
         if isinstance(e, ast.Call) and call_name(e) == 'compile_chain':
             captured['compile'] = e
-            captured['compile_args0'] = None
+            if len(e.args) >= 3:
+                p2 = seq(e.args[1])
+                captured['compile_seqs'] = (seq(e.args[0]), p2)
+                captured['compile_first'] = it.try_eval(p2[0][1]) if p2 and p2[0][0] == 'e' else None
             return Opaque(e, 'chain')
         return None
-    it = SetInterp(uni, env={ps[3]: uni['PRE']}, model=model)
-    for p in (ps[0], ps[1], ps[2], ps[4]):
-        it.env[p] = Opaque(None, p)
+    it.model = model
     body = fi.node.body
-    it.exec_block([s for s in body if not isinstance(s, ast.Return)])
+    for st in body:
+        if isinstance(st, ast.Return):
+            continue
+        it.exec_stmt(st)
+        if isinstance(st, ast.Assign) and len(st.targets) == 1 and isinstance(st.targets[0], ast.Name):
+            sq = seq(st.value)
+            if any(k == '?' for k, _ in sq):
+                seqenv.pop(st.targets[0].id, None)
+            else:
+                seqenv[st.targets[0].id] = sq
+        elif isinstance(st, ast.Expr) and isinstance(st.value, ast.Call) and isinstance(st.value.func, ast.Attribute) and \
+                isinstance(st.value.func.value, ast.Name):
+            seqenv.pop(st.value.func.value.id, None)      # a method call on the list: no longer the form we recorded
+        elif isinstance(st, ast.AugAssign) and isinstance(st.target, ast.Name):
+            seqenv.pop(st.target.id, None)
     rets = returns_of(fi)
     if len(rets) != 1 or not isinstance(rets[0].value, ast.Tuple) or len(rets[0].value.elts) != 3:
         raise AnalysisError('make_chain: expected "return chain, args, unresolved"')
@@ -198,53 +245,55 @@ def check_make_chain(rep, rule, rule_align):
               sinter, rets[0])
     # ---- alignment of the two consumers (R01.f)
     ca, cc = captured.get('argspec'), captured.get('compile')
-    if ca is None or cc is None:
-        raise AnalysisError('make_chain no longer calls chain_argspec / compile_chain')
+    if ca is None or cc is None or 'argspec_seqs' not in captured or 'compile_seqs' not in captured:
+        raise AnalysisError('make_chain no longer calls chain_argspec / compile_chain (with positional lists)')
 
-    def seq(e):
-        """Concatenation normal form of a list expression: list of element texts / '*name'."""
-        if isinstance(e, ast.BinOp) and isinstance(e.op, ast.Add):
-            return seq(e.left) + seq(e.right)
-        if isinstance(e, (ast.List, ast.Tuple)):
-            return [norm(x) for x in e.elts]
-        if isinstance(e, ast.Call) and call_name(e) in ('list', 'tuple') and len(e.args) == 1:
-            return seq(e.args[0])
-        if isinstance(e, ast.Name):
-            # look through "funcs = list(funcs)"
-            return ['*' + e.id]
-        return ['?' + norm(e)]
-    f1, p1 = seq(ca.args[0]), seq(ca.args[1])
-    f2, p2 = seq(cc.args[0]), seq(cc.args[1])
-    ok = f1 == f2 == ['*' + ps[0], ps[2]]
+    def show(sq):
+        return [('*' + v) if k == '*' else (norm(v) if k == 'e' else '?' + v) for k, v in sq]
+
+    def is_funcs(sq):
+        return len(sq) == 2 and sq[0] == ('*', ps[0]) and sq[1][0] == 'e' and norm(sq[1][1]) == ps[2]
+
+    def is_empty_tuple(x):
+        return (isinstance(x, ast.Tuple) and not x.elts) or (isinstance(x, ast.Call) and call_name(x) == 'tuple' and not x.args)
+    (f1, p1), (f2, p2) = captured['argspec_seqs'], captured['compile_seqs']
+    ok = is_funcs(f1) and is_funcs(f2)
     rep.check(rule_align, fkey(fi, 'function sequence'), ok,
               'chain_argspec and compile_chain both get funcs ++ [final_func]' if ok else
-              'function sequences differ or are not funcs ++ [final_func]: %r vs %r' % (f1, f2), sinter, cc)
-    ok = p1 == ['*' + ps[1], '()']
+              'function sequences differ or are not funcs ++ [final_func]: %r vs %r' % (show(f1), show(f2)), sinter, cc)
+    ok = len(p1) == 2 and p1[0] == ('*', ps[1]) and p1[1][0] == 'e' and is_empty_tuple(p1[1][1])
     rep.check(rule_align, fkey(fi, 'provides for argspec'), ok, 'chain_argspec gets provides ++ [()]' if ok else
-              'chain_argspec provides list is %r, expected provides ++ [()]' % p1, sinter, ca)
-    args_name = norm(r_args.args[0]) if isinstance(r_args, ast.Call) and r_args.args else norm(r_args)
-    ok = len(p2) == 2 and p2[1] == '*' + ps[1] and p2[0] == args_name
-    try:
-        first = cc.args[1].left.elts[0] if isinstance(cc.args[1], ast.BinOp) else None
-        ok = ok and first is not None and it.eval(first) == want_args
-    except Exception:
-        ok = False
+              'chain_argspec provides list is %r, expected provides ++ [()]' % show(p1), sinter, ca)
+    ok = len(p2) == 2 and p2[1] == ('*', ps[1]) and p2[0][0] == 'e' and captured.get('compile_first') == want_args
     rep.check(rule_align, fkey(fi, 'params for codegen'), ok,
               'generated level L re-binds exactly what chain_argspec counted as provided before L ([args] ++ provides)' if ok else
-              'compile_chain parameter lists are %r, expected [args] ++ provides' % p2, sinter, cc)
+              'compile_chain parameter lists are %r, expected [args] ++ provides' % show(p2), sinter, cc)
     ok = norm(ca.args[2]) == ps[4] and norm(cc.args[2]) == ps[4]
     rep.check(rule_align, fkey(fi, 'inner name'), ok, 'both consumers use the same inner name' if ok else
               'inner name differs between chain_argspec and compile_chain', sinter, cc)
     # compile_chain passes through unchanged
     cfi = sinter.func('compile_chain')
     cps = cfi.params()
-    bc = [c for c in walk_body(cfi.node) if isinstance(c, ast.Call) and call_name(c) == 'build_chain_str']
-    cco = [c for c in walk_body(cfi.node) if isinstance(c, ast.Call) and call_name(c) == 'compile_code']
-    ok = len(bc) == 1 and [norm(a) for a in bc[0].args[:3]] == cps[:3] and len(cco) == 1
+    try:
+        te = TemplateEval(repo, cfi).run()
+        sinks = [k for k in te.sinks if k['name'] == 'compile_code']
+    except AnalysisError:
+        te, sinks = None, []
+    ok = len(sinks) == 1
     if ok:
-        env = cco[0].args[2] if len(cco[0].args) > 2 else kwarg(cco[0], 'env')
-        ok = isinstance(env, ast.Dict) and [k.value for k in env.keys if isinstance(k, ast.Constant)] == ['funcs'] \
-            and norm(env.values[0]) == cps[0] and norm(cco[0].args[1]) == cps[2]
+        k = sinks[0]
+
+        def arg(name, pos):
+            return k['kw'].get(name, k['args'][pos] if len(k['args']) > pos else None)
+        code, nm, env = arg('code_str', 0), arg('name', 1), arg('env', 2)
+        ok = isinstance(code, codegen.Ex) and isinstance(code.node, ast.Call) and call_name(code.node) == 'build_chain_str' and \
+            [norm(a) for a in code.node.args[:3]] == cps[:3] and len(code.node.args) == 3 and not code.node.keywords
+        ok = ok and isinstance(nm, codegen.Ex) and nm.text == cps[2]
+        ok = ok and isinstance(env, codegen.SDict) and env.comp is None and list(env.items) == ['funcs'] and \
+            isinstance(env.items['funcs'], codegen.Ex) and env.items['funcs'].text == cps[0]
+        mr = te.main_return()
+        ok = ok and mr is not None and isinstance(mr[1], codegen.Ex) and isinstance(mr[1].node, ast.Call) and call_name(mr[1].node) == 'compile_code' \
+            and not te.guards
     rep.check(rule_align, fkey(cfi, 'pass-through'), ok,
               "compile_chain builds the text from (funcs, params, inner_name) and executes it with {'funcs': funcs}, returning env[inner_name]" if ok else
               'compile_chain does not pass funcs/params/inner_name through unchanged', sinter, cfi.node)
@@ -257,112 +306,195 @@ def check_make_chain(rep, rule, rule_align):
 PHASES = {'request': 'provides', 'endpoint': 'endpoint_provides', 'render': 'render_provides'}
 
 
-def phase_lists(repo):
-    """Locate the three (function list, provides list) pairs in make_middleware_chain by role."""
-    core = repo.mod(CORE)
-    fi = core.func('make_middleware_chain')
-    ps = fi.params()
-    sigs = {}
-    for st in stmts_of(fi.node):
-        if isinstance(st, ast.Assign) and isinstance(st.value, ast.ListComp) and isinstance(st.targets[0], ast.Name):
-            lc = st.value
-            if isinstance(lc.elt, ast.Tuple) and len(lc.elt.elts) == 2 and len(lc.generators) == 1:
-                g = lc.generators[0]
-                a, b = lc.elt.elts
-                if isinstance(a, ast.Attribute) and isinstance(b, ast.Attribute) and isinstance(g.target, ast.Name) \
-                        and norm(a.value) == g.target.id and norm(b.value) == g.target.id:
-                    sigs[st.targets[0].id] = {'func': a.attr, 'prov': b.attr, 'iter': norm(g.iter),
-                                              'ifs': [norm(c) for c in g.ifs], 'var': g.target.id, 'node': st}
-    names = {}
-    for st in stmts_of(fi.node):
-        if isinstance(st, ast.Assign) and isinstance(st.targets[0], ast.Tuple) and len(st.targets[0].elts) == 2:
-            src = [n.id for n in ast.walk(st.value) if isinstance(n, ast.Name) and n.id in sigs]
-            if len(src) == 1 and 'zip' in norm(st.value):
-                a, b = [norm(x) for x in st.targets[0].elts]
-                names[a] = ('funcs', sigs[src[0]]['func'], src[0])
-                names[b] = ('provs', sigs[src[0]]['func'], src[0])
-                sigs[src[0]]['unzip'] = st
-    return fi, sigs, names
+PROVS_PHASE = dict((v, k) for k, v in PHASES.items())
+
+
+def _phase_comp(e):
+    """``[(mw.F, mw.P) for mw in X if ...]`` / ``[mw.A for mw in X if ...]`` -> description of the comprehension, else None."""
+    if not isinstance(e, (ast.ListComp, ast.GeneratorExp)) or len(e.generators) != 1 or not isinstance(e.generators[0].target, ast.Name):
+        return None
+    g = e.generators[0]
+    var = g.target.id
+
+    def attr_of(x):
+        return x.attr if isinstance(x, ast.Attribute) and isinstance(x.value, ast.Name) and x.value.id == var else None
+    d = {'var': var, 'iter': g.iter, 'ifs': list(g.ifs), 'node': e}
+    if isinstance(e.elt, ast.Tuple) and len(e.elt.elts) == 2 and attr_of(e.elt.elts[0]) and attr_of(e.elt.elts[1]):
+        d.update(kind='sigs', func=attr_of(e.elt.elts[0]), prov=attr_of(e.elt.elts[1]))
+        return d
+    a = attr_of(e.elt)
+    if a in PHASES:
+        d.update(kind='funcs', func=a, prov=None)
+        return d
+    if a in PROVS_PHASE:
+        d.update(kind='provs', func=None, prov=a)
+        return d
+    return None
+
+
+def _strip_not(t, pol=True):
+    while isinstance(t, ast.UnaryOp) and isinstance(t.op, ast.Not):
+        t, pol = t.operand, not pol
+    return t, pol
 
 
 def check_phase_sets(rep, rule, rule_pair=None, rule_order=None, rule_core_env=None):
+    """Abstract interpretation of make_middleware_chain.  The three (function list, provides list) pairs are found
+    by evaluation: a comprehension over the middleware list that selects ``(mw.<slot>, mw.<slot provides>)`` pairs (or
+    one of the two) is a phase value; ``zip(*sigs)``, ``list(..)``, ``.. or ((), ())``, tuple unpacking, aliases and
+    an ``if not sigs: <empty lists> else: <unzip>`` split carry it to the make_chain call that consumes it."""
     repo = rep.repo
     core = repo.mod(CORE)
-    fi, sigs, names = phase_lists(repo)
+    fi = core.func('make_middleware_chain')
     ps = fi.params()   # middlewares, endpoint, render, preprovided
+    if len(ps) != 4:
+        raise AnalysisError('make_middleware_chain signature changed: %r' % ps)
     rule_pair = rule_pair or rule
-    # ---- pairing table (floor 3)
-    seen = {}
-    for sname, s in sorted(sigs.items()):
-        want = PHASES.get(s['func'])
-        ok = want == s['prov']
-        seen[s['func']] = sname
-        rep.check(rule_pair, fkey(fi, 'pairing mw.%s' % s['func']), ok,
-                  'mw.%s is paired with mw.%s' % (s['func'], s['prov']) if ok else
-                  'mw.%s functions are paired with mw.%s (expected mw.%s): provides of another phase are counted'
-                  % (s['func'], s['prov'], want), core, s['node'])
-        if rule_order:
-            ok = s['iter'] == ps[0] and s['ifs'] == ['%s.%s' % (s['var'], s['func'])] and 'unzip' in s and \
-                not any(isinstance(n, ast.Call) and call_name(n) in ('sorted', 'reversed', 'set', 'frozenset')
-                        for n in ast.walk(s['unzip'].value))
-            rep.check(rule_order, fkey(fi, 'order of mw.%s' % s['func']), ok,
-                      'the %s functions are taken from the middleware list in list order, filtered by presence only' % s['func'] if ok else
-                      'the %s function list is not the middleware list in order filtered by presence (iter %s, filters %s)'
-                      % (s['func'], s['iter'], s['ifs']), core, s['node'])
-    if set(seen) != set(PHASES):
-        raise AnalysisError('make_middleware_chain: phase comprehensions found for %s only' % sorted(seen))
-    # ---- availability sets by abstract interpretation
     uni = Universe(['PRE', 'NEXT', 'CTX', 'REQP', 'EPP', 'RNP', 'EPA', 'RNA'])
     provs_atom = {'request': 'REQP', 'endpoint': 'EPP', 'render': 'RNP'}
     args_atom = {'endpoint': 'EPA', 'render': 'RNA'}
     calls = {}
     inner = {}
+    comps = {}       # id(comprehension node) -> description (+ 'reordered' flag)
+    comp_of_phase = {}
 
-    def phase_of(e):
-        n = norm(e)
-        if n in names:
-            return names[n][1]
+    def phase_val(v):
+        """(kind, phase, comprehension description) of an interpreter value that stands for a phase list."""
+        if isinstance(v, Opaque) and isinstance(v.tag, tuple) and len(v.tag) == 3 and v.tag[0] in ('sigs', 'funcs', 'provs'):
+            return v.tag[0], v.tag[1], comps.get(v.tag[2])
+        if isinstance(v, Opaque) and v.tag is None and v.expr is not None:
+            d = _phase_comp(v.expr)
+            if d is not None:
+                d = comps.setdefault(id(d['node']), d)
+                phase = d['func'] if d['func'] is not None else PROVS_PHASE.get(d['prov'])
+                return d['kind'], phase, d
         return None
+
+    def note(d, kind, phase):
+        comp_of_phase.setdefault((kind if kind != 'sigs' else 'funcs', phase), d)
+        if kind == 'sigs':
+            comp_of_phase.setdefault(('provs', PROVS_PHASE.get(d['prov'])), d)
 
     def model(it, e):
         if isinstance(e, ast.Call):
             cn = call_name(e)
+            if cn == 'zip' and len(e.args) == 1 and isinstance(e.args[0], ast.Starred) and not e.keywords:
+                pv = phase_val(it.try_eval(e.args[0].value))
+                if pv is not None and pv[0] == 'sigs':
+                    d = pv[2]
+                    return (Opaque(e, ('funcs', d['func'], id(d['node']))), Opaque(e, ('provs', PROVS_PHASE.get(d['prov']), id(d['node']))))
+                raise Unmodelled('zip(*%s): not a list of (function, provides) pairs of the middlewares' % norm(e.args[0].value))
+            if cn in ('sorted', 'reversed', 'set', 'frozenset') and e.args:
+                pv = phase_val(it.try_eval(e.args[0]))
+                if pv is not None:
+                    pv[2]['reordered'] = cn
+                    return Opaque(e, (pv[0], pv[1], id(pv[2]['node'])))
             if cn == 'make_chain':
-                ph = phase_of(e.args[0]) if e.args else None
-                if ph is None:
-                    raise Unmodelled('make_chain call with unknown function list %s' % (norm(e.args[0]) if e.args else ''))
-                avail = it.as_set(it.eval(e.args[3]), e.args[3])
-                calls[ph] = {'call': e, 'avail': avail, 'provs_phase': phase_of(e.args[1]), 'final': norm(e.args[2]),
-                             'inner': e.args[4]}
-                a = uni[args_atom[ph]] if ph in args_atom else 0
-                return (Opaque(e, 'chain:' + ph), a, Opaque(e, 'unres:' + ph))
+                a = [argn(e, n, i) for i, n in enumerate(('funcs', 'provides', 'final_func', 'preprovided', 'inner_name'))]
+                if None in a:
+                    raise Unmodelled('make_chain call with missing arguments: %s' % norm(e))
+                fv, pv = phase_val(it.try_eval(a[0])), phase_val(it.try_eval(a[1]))
+                if fv is None or fv[0] != 'funcs' or fv[1] not in PHASES:
+                    raise Unmodelled('make_chain call with unknown function list %s' % norm(a[0]))
+                ph = fv[1]
+                note(fv[2], 'funcs', ph)
+                if pv is not None and pv[0] == 'provs':
+                    note(pv[2], 'provs', pv[1])
+                avail = it.as_set(it.eval(a[3]), a[3])
+                calls[ph] = {'call': e, 'avail': avail, 'provs_phase': pv[1] if pv is not None and pv[0] == 'provs' else None,
+                             'final': norm(a[2]), 'final_node': a[2], 'inner': a[4], 'funcs': fv, 'provs': pv}
+                aa = uni[args_atom[ph]] if ph in args_atom else 0
+                return (Opaque(e, 'chain:' + ph), aa, Opaque(e, 'unres:' + ph))
             if cn == '_create_request_inner':
+                a = [argn(e, n, i) for i, n in enumerate(('endpoint', 'render', 'all_args', 'endpoint_args', 'render_args'))]
                 inner['call'] = e
-                inner['args'] = [it.try_eval(a) for a in e.args]
+                inner['args'] = [it.try_eval(x) for x in a if x is not None]
                 return Opaque(e, 'req_inner')
             if cn == 'get_arg_names':
                 return Opaque(e, 'names')
             # flatten of a provides list:  set(chain.from_iterable(X)) / set(itertools.chain(*X))
             if cn in ('set', 'frozenset') and e.args:
                 for n in ast.walk(e.args[0]):
-                    if isinstance(n, ast.Name) and n.id in names and names[n.id][0] == 'provs':
-                        return uni[provs_atom[names[n.id][1]]]
+                    if isinstance(n, ast.Name):
+                        pv = phase_val(it.try_eval(n))
+                        if pv is not None and pv[0] == 'provs' and pv[1] in provs_atom:
+                            note(pv[2], 'provs', pv[1])
+                            return uni[provs_atom[pv[1]]]
         return None
-    it = SetInterp(uni, env={ps[3]: uni['PRE']}, elems={"'next'": uni['NEXT'], "'context'": uni['CTX'], '_INNER_NAME': uni['NEXT']},
-                   model=model)
+
+    def if_model(it, st):
+        """``if not sigs: funcs = (); provs = () / else: funcs, provs = zip(*sigs)``: the empty branch is the non-empty
+        one specialised to the empty list."""
+        t, pol = _strip_not(st.test)
+        name = None
+        for n in ast.walk(t):
+            if isinstance(n, ast.Name) and phase_val(it.try_eval(n)) is not None:
+                name = n.id
+        if name is None:
+            return False
+        if _implies_empty(t, pol, name):
+            empty, full = st.body, st.orelse
+        elif _implies_empty(t, not pol, name):
+            empty, full = st.orelse, st.body
+        else:
+            return False
+        bound = []
+        for s_ in empty:
+            if isinstance(s_, ast.Pass):
+                continue
+            v = s_.value if isinstance(s_, ast.Assign) and len(s_.targets) == 1 and isinstance(s_.targets[0], ast.Name) else None
+            if v is None or not ((isinstance(v, (ast.Tuple, ast.List)) and not v.elts) or
+                                 (isinstance(v, ast.Call) and call_name(v) in ('tuple', 'list') and not v.args)):
+                raise Unmodelled('the branch for an empty %s does more than bind empty sequences' % name)
+            bound.append(s_.targets[0].id)
+        it.exec_block(full)
+        for b in bound:
+            if phase_val(it.env.get(b)) is None:
+                raise Unmodelled('%s is () when %s is empty but not a phase list otherwise' % (b, name))
+        return True
+    it = SetInterp(uni, env={ps[3]: uni['PRE']}, elems={"'next'": uni['NEXT'], "'context'": uni['CTX']}, model=model)
+    it.if_model = if_model
+    it.fold = lambda e: repo.try_fold(e, core)
     for p in ps[:3]:
         it.env[p] = Opaque(None, p)
     try:
         it.exec_block([s for s in fi.node.body if not isinstance(s, ast.Return)])
     except Unmodelled as e:
         raise AnalysisError('make_middleware_chain outside the modelled subset: %s' % e)
+    for ph in ('endpoint', 'render', 'request'):
+        if ph not in calls:
+            raise AnalysisError('make_middleware_chain: no make_chain call for the %s phase' % ph)
+    # ---- pairing table (floor 3) and list order
+    for ph in sorted(PHASES):
+        fd, pd = comp_of_phase.get(('funcs', ph)), calls[ph]['provs'][2] if calls[ph]['provs'] else None
+        if fd is None:
+            raise AnalysisError('make_middleware_chain: function list of the %s phase not identified' % ph)
+        got_prov = pd['prov'] if pd is not None else None
+        want = PHASES[ph]
+        ok = got_prov == want
+        rep.check(rule_pair, fkey(fi, 'pairing mw.%s' % ph), ok,
+                  'mw.%s is paired with mw.%s' % (ph, want) if ok else
+                  'mw.%s functions are paired with mw.%s (expected mw.%s): provides of another phase are counted'
+                  % (ph, got_prov, want), core, fd['node'])
+        if rule_order:
+            def in_order(d):
+                itx = d['iter']
+                while isinstance(itx, ast.Call) and call_name(itx) in ('list', 'tuple', 'iter') and len(itx.args) == 1:
+                    itx = itx.args[0]
+                flt = [norm(c) for c in d['ifs']]
+                return norm(itx) == ps[0] and flt == ['%s.%s' % (d['var'], ph)] and not d.get('reordered')
+            ok = in_order(fd) and pd is not None and in_order(pd)
+            rep.check(rule_order, fkey(fi, 'order of mw.%s' % ph), ok,
+                      'the %s functions are taken from the middleware list in list order, filtered by presence only' % ph if ok else
+                      'the %s function list is not the middleware list in order filtered by presence (iter %s, filters %s%s)'
+                      % (ph, norm(fd['iter']), [norm(c) for c in fd['ifs']], ', then %s()' % fd['reordered'] if fd.get('reordered') else ''),
+                      core, fd['node'])
+    # ---- availability sets by abstract interpretation
     base = uni['PRE'] & uni.neg(uni['NEXT']) & uni.neg(uni['CTX'])
     want = {'request': (base, '(preprovided - {next, context})'),
             'endpoint': (base | uni['REQP'], '(preprovided - {next, context}) | request-provides'),
             'render': (base | uni['REQP'] | uni['CTX'], '(preprovided - {next, context}) | request-provides | {context}')}
     for ph in ('endpoint', 'render', 'request'):
-        if ph not in calls:
-            raise AnalysisError('make_middleware_chain: no make_chain call for the %s phase' % ph)
         c = calls[ph]
         w, text = want[ph]
         ok = c['avail'] == w
@@ -399,7 +531,7 @@ def check_phase_sets(rep, rule, rule_pair=None, rule_order=None, rule_core_env=N
                   'endpoint/render argument sets passed to the request core are swapped or altered', core, inner['call'])
     # request-phase final func is the request core
     rq = calls['request']
-    v = it.env.get(rq['final'])
+    v = it.try_eval(rq['final_node'])
     ok = isinstance(v, Opaque) and v.tag == 'req_inner'
     rep.check(rule_core_env, fkey(fi, 'request chain wraps core'), ok, 'request middlewares wrap process_request' if ok else
               'the request chain does not end in the process_request function', core, rq['call'])
@@ -415,11 +547,46 @@ def check_phase_sets(rep, rule, rule_pair=None, rule_order=None, rule_core_env=N
 # R01.b: unresolved => NameError
 # ---------------------------------------------------------------------------------------------
 
+def _single_value(fi, name):
+    vals = [v for st, v, idx in assigned_value(fi.node, name) if idx is None and isinstance(st, ast.Assign)]
+    alls = assigned_value(fi.node, name)
+    return vals[0] if len(vals) == 1 and len(alls) == 1 else None
+
+
+def _branches_resolved(fi, cfg):
+    """Branch nodes as (node id, test, polarity) with leading nots stripped and a test that is a single-assignment local
+    naming a condition replaced by that condition."""
+    out = []
+    for nid, t, p in cfg.branches():
+        for _ in range(3):
+            if isinstance(t, ast.Name):
+                v = _single_value(fi, t.id)
+                if v is not None and isinstance(v, (ast.Compare, ast.UnaryOp, ast.Call, ast.BoolOp)):
+                    t, p = _strip_not(v, p)
+                    continue
+            break
+        out.append((nid, t, p))
+    return out
+
+
+def _always_raises(cfg, srcs, exc):
+    """From the nodes ``srcs`` every normal path ends in ``raise <exc>`` (the function's exit is not reachable)."""
+    r = cfg.reach(srcs, normal_only=True)
+    if cfg.exit in r:
+        return False, 'escapes'
+    rz = [cfg.nodes[n].stmt for n in r if n in cfg.raise_nodes]
+    types = set(raise_type(x) for x in rz)
+    if types != {exc}:
+        return False, 'type %s' % sorted(str(t) for t in types)
+    return True, ''
+
+
 def check_unresolved_raises(rep, rule):
     repo = rep.repo
     core = repo.mod(CORE)
     fi = core.func('make_middleware_chain')
     cfg = cfg_of(fi)
+    branches = _branches_resolved(fi, cfg)
     n = 0
     for st in stmts_of(fi.node):
         if isinstance(st, ast.Assign) and isinstance(st.value, ast.Call) and call_name(st.value) == 'make_chain':
@@ -429,42 +596,51 @@ def check_unresolved_raises(rep, rule):
                 rep.fail(rule, fkey(fi, st.value), 'the unresolved set returned by make_chain is not bound to a name (dropped)', core, st)
                 continue
             u = t.elts[2].id
-            ifs = [s for s in stmts_of(fi.node) if isinstance(s, ast.If) and
-                   (norm(s.test) in (u, 'len(%s)' % u, '%s != set()' % u, 'len(%s) > 0' % u, 'bool(%s)' % u))]
+            forms = [u] + ['%s(%s)' % (w, u) for w in ('list', 'tuple', 'sorted', 'set', 'frozenset')]   # same emptiness
+
+            def about_u(tt, pol, _):
+                return any(_implies_empty(tt, pol, f) for f in forms)
+            tb = [nid for nid, tt, p in branches if about_u(tt, not p, True)]      # the set is non-empty on this branch
+            eb = [nid for nid, tt, p in branches if about_u(tt, p, True)]          # the set is empty on this branch
             ok = False
             why = 'the unresolved set %s is never tested' % u
-            for i in ifs:
-                tb = cfg.branch_nodes(i.test, True)
-                escapes = cfg.exit in cfg.reach(tb, normal_only=True)
-                rz = [r for r in ast.walk(i) if isinstance(r, ast.Raise)]
-                types = set(raise_type(r) for r in rz)
-                dom = cfg.must_pass(cfg.nodes_of(i), cfg.nodes_of(st), cfg.exit, normal_only=True)
-                if not escapes and types == {'NameError'} and dom:
+            if tb:
+                raises, how = _always_raises(cfg, tb, 'NameError')
+                dom = cfg.must_pass(eb, cfg.nodes_of(st), cfg.exit, normal_only=True)
+                if raises and dom:
                     ok = True
-                elif escapes:
+                elif how == 'escapes':
                     why = 'a non-empty %s does not always raise' % u
-                elif types != {'NameError'}:
-                    why = 'unresolved arguments raise %s instead of NameError' % sorted(types)
-                elif not dom:
+                elif not raises:
+                    why = 'unresolved arguments raise %s instead of NameError' % how[5:]
+                else:
                     why = 'the test of %s can be bypassed' % u
-            rep.check(rule, fkey(fi, 'unresolved of ' + norm(st.value.args[0])), ok,
+            a0 = argn(st.value, 'funcs', 0)
+            rep.check(rule, fkey(fi, 'unresolved of ' + norm(a0)), ok,
                       'non-empty %s => raise NameError on every path to the return' % u if ok else why, core, st)
     if n < 3:
         raise AnalysisError('make_middleware_chain: %d make_chain calls (floor 3)' % n)
     # 'next' must not be taken by endpoint / render
     ps = fi.params()
     for who in (ps[1], ps[2]):
-        ifs = [s for s in stmts_of(fi.node) if isinstance(s, ast.If) and isinstance(s.test, ast.Compare)
-               and isinstance(s.test.ops[0], ast.In) and isinstance(s.test.left, ast.Constant) and s.test.left.value == 'next'
-               and isinstance(s.test.comparators[0], ast.Call) and call_name(s.test.comparators[0]) == 'get_arg_names'
-               and norm(s.test.comparators[0].args[0]) == who]
-        ok = False
-        for i in ifs:
-            tb = cfg.branch_nodes(i.test, True)
-            if cfg.exit not in cfg.reach(tb, normal_only=True) and \
-                    set(raise_type(r) for r in ast.walk(i) if isinstance(r, ast.Raise)) == {'NameError'} and \
-                    cfg.must_pass(cfg.nodes_of(i), cfg.entry, cfg.exit, normal_only=True):
-                ok = True
+        def names_of_who(x):
+            """x evaluates to all the parameter names of ``who``."""
+            if isinstance(x, ast.Name):
+                v = _single_value(fi, x.id)
+                return v is not None and names_of_who(v)
+            if isinstance(x, ast.Call) and call_name(x) in ('set', 'list', 'tuple', 'frozenset', 'sorted') and len(x.args) == 1:
+                return names_of_who(x.args[0])
+            if not (isinstance(x, ast.Call) and call_name(x) == 'get_arg_names' and x.args and norm(x.args[0]) == who):
+                return False
+            only = argn(x, 'only_required', 1)
+            return only is None or (isinstance(only, ast.Constant) and not only.value)
+        tb, fb = [], []
+        for nid, tt, p in branches:
+            if isinstance(tt, ast.Compare) and len(tt.ops) == 1 and isinstance(tt.ops[0], (ast.In, ast.NotIn)) and \
+                    repo.try_fold(tt.left, core) == 'next' and names_of_who(tt.comparators[0]):
+                takes = p if isinstance(tt.ops[0], ast.In) else not p
+                (tb if takes else fb).append(nid)
+        ok = bool(tb) and _always_raises(cfg, tb, 'NameError')[0] and cfg.must_pass(fb, cfg.entry, cfg.exit, normal_only=True)
         rep.check(rule, fkey(fi, "'next' in %s" % who), ok, "%s taking 'next' raises NameError at bind time" % who if ok else
                   "%s may declare 'next' without a NameError at bind time" % who, core, fi.node)
 
